@@ -190,3 +190,24 @@ Proof.
   rewrite (dfun_cons_notin k v r k2) by (intros ->; apply Hnot; left; reflexivity).
   f_equal. apply IHk. intros Hin. apply Hnot. right; exact Hin.
 Qed.
+
+(* ------------------------------------------------------------------ *)
+(** Python list indexing and slicing (step 1), exactly: negative positions count
+    from the end; an index out of range is an IndexError ([None]); slice bounds
+    are clamped. *)
+Definition py_index {A} (l : list A) (i : Z) : option A :=
+  let n := Z.of_nat (length l) in
+  let j := if i <? 0 then i + n else i in
+  if (j <? 0) || (j >=? n) then None else nth_error l (Z.to_nat j).
+
+Definition py_clamp (n : Z) (b : option Z) (dflt : Z) : Z :=
+  match b with
+  | None => dflt
+  | Some i => let j := if i <? 0 then i + n else i in Z.max 0 (Z.min n j)
+  end.
+
+Definition py_slice {A} (l : list A) (lo hi : option Z) : list A :=
+  let n := Z.of_nat (length l) in
+  let a := py_clamp n lo 0 in
+  let b := py_clamp n hi n in
+  firstn (Z.to_nat (b - a)) (skipn (Z.to_nat a) l).
